@@ -110,6 +110,12 @@ def issue(config, case, text, opname, variables, root):
         rt = AsyncIORuntime(loop=loop)
         return loop.run_until_complete(py_gql.process_graphql_query(case.schema, text, runtime=rt, **kw))
     finally:
+        # a request that failed early (unexpected exception) may have resolver calls left in the loop's
+        # executor threads; wait for them so that they are not attributed to the next request
+        try:
+            loop.run_until_complete(loop.shutdown_default_executor())
+        except Exception:
+            pass
         loop.close()
 
 
